@@ -9,7 +9,7 @@ import lib
 def trace_validation(ctx, pid):
     """Random long executions of the real SharedHistory (vh histtrace), validated by TLC against Trace_History.tla
     in the mode of the property (C13: queries judged, C14: runs judged)."""
-    episodes = 400 if ctx.thorough else 60
+    episodes = 6000 if ctx.thorough else 300
     trace = ctx.path("histtrace.ndjson")
     res = lib.vh(ctx, "histtrace", None, props=[pid], opts={"trace": trace, "episodes": episodes}, out_name="histtrace",
                  timeout=1200)
@@ -118,14 +118,16 @@ def _run(ctx):
     return lib.finish(ctx, r, rule, exhaustive=True)
 
 
-_NOTE = ("TLC checks History.tla (RFC 1982 arithmetic modulo 16, every start serial, every client serial) exhaustively "
+_NOTE = ("Both directions bind the model to the code: TLC behaviours replayed into the code, and recorded executions "
+         "(300 episodes quick / 6000 thorough, history size 0..10, 20-60 steps, start serials at both wraps) accepted by "
+         "Trace_History.tla, with a corrupted recording rejected. TLC checks History.tla (RFC 1982 arithmetic modulo 16, every start serial, every client serial) exhaustively "
          "and rejects the as_shipped variant; replay runs the exported histories on the real SharedHistory with "
          "serials mapped to the 32-bit space. Trusted: the mapping of symbolic serials, SLURM as data-set installer.")
 
 CHECKS = {
     "C13": {
         "run": _run, "engine": "History",
-        "technique": "TLA+ model of delta_since/push_delta (History.tla) checked by TLC; exported histories and query points replayed into SharedHistory::diff",
+        "technique": "TLA+ model of delta_since/push_delta (History.tla) checked by TLC; exported histories and query points replayed into SharedHistory::diff; random long executions of the real code trace-validated by TLC against Trace_History.tla",
         "level_text": "All histories within the bound (5-7 runs, history size 0..4, 3 data sets, natural and seeded start serials) "
                       "and, in each reachable state, every client serial (mod 16 in TLC; ~40 boundary points in the 32-bit replay, "
                       "including distance 2^31 and wrap-around) are decided against the exact-or-refused oracle.",
@@ -133,7 +135,7 @@ CHECKS = {
     },
     "C14": {
         "run": _run, "engine": "History",
-        "technique": "TLA+ model (History.tla) checked by TLC; exported histories replayed into SharedHistory::update",
+        "technique": "TLA+ model (History.tla) checked by TLC; exported histories replayed into SharedHistory::update; random long executions of the real code trace-validated by TLC against Trace_History.tla",
         "level_text": "All run sequences within the bound for every history size 0..4: serial advances exactly once per change "
                       "and the retained queue never exceeds max(history-size, 1).",
         "level_note": _NOTE, "design_ref": "4/C14",
